@@ -124,8 +124,11 @@ CHECKS = {
     'C06': dict(
         cat='exploration', ref='5 C06',
         technique='round-trip monitor (getstate/setstate, pickle 0-5, copy, '
-                  'cross-implementation loads, byte comparison of C and '
-                  'Python pickles, record-graph comparison through MiniDB)',
+                  'constructor copy, cross-implementation loads, byte '
+                  'comparison of C and Python pickles, record-graph '
+                  'comparison through MiniDB); every reachable state of a '
+                  'small universe through pickle / deepcopy '
+                  '(vmon/explore.py)',
         text='Containers reached by generated histories are round-tripped '
              'through __getstate__/__setstate__, pickle protocols 0-5, copy '
              'and deepcopy; C pickles are loaded as Python classes and vice '
